@@ -467,7 +467,8 @@ def _keygen(func, ignored, /, *args, **kwds):
             user_args = user_args[1:]                # remove 'self' instance
             user_kwds.pop(explicitly_named[0], None) #XXX: unnecessary?
             explicitly_named = explicitly_named[1:]  # remove 'self' name
-            #XXX: hopefully, this doesn't mess up arg counting and other stuff
+            # an index counts 'self' as 0: keep it pointing at the same argument
+            index_to_ignore = set(i-1 for i in index_to_ignore if i > 0)
 
     # remove markers for ignoring all varagrs and all varkwds
     varargs_to_ignore = '*' in names_to_ignore
